@@ -67,6 +67,9 @@ pub struct ConsObs {
     /// If nobody was listening (in the harness' view: attached, reader not dropped) when this consumer
     /// attached: for how many virtual milliseconds that had been so.
     pub idle_ms_before_attach: Option<u64>,
+    /// A `Stall` step was applied to this consumer's reader at some point (only a stalled reader
+    /// leaves frames that are available unread while virtual time passes).
+    pub ever_stalled: bool,
 }
 
 #[derive(Clone)]
@@ -103,6 +106,7 @@ struct Live {
     idle_ms_before_attach: Option<u64>,
     /// The harness has not dropped the reader.
     listening: bool,
+    ever_stalled: bool,
 }
 
 impl Live {
@@ -219,6 +223,7 @@ pub fn run_case(cfg: &Config, script: &[Step], rng: &mut Rng) -> Obs {
                         accepted,
                         idle_ms_before_attach,
                         listening: accepted,
+                        ever_stalled: false,
                     });
                 }
                 Step::Cmd(c, cmd) => {
@@ -235,8 +240,9 @@ pub fn run_case(cfg: &Config, script: &[Step], rng: &mut Rng) -> Obs {
                 }
                 Step::LaneApply(ev) => lane_op(LaneOp::Apply(ev.clone())),
                 Step::Stall(c) => {
-                    if let Some(l) = live[*c].as_ref() {
+                    if let Some(l) = live[*c].as_mut() {
                         set_stalled(&l.ctl, true);
+                        l.ever_stalled = true;
                     }
                 }
                 Step::Unstall(c) => {
@@ -414,6 +420,7 @@ pub fn run_case(cfg: &Config, script: &[Step], rng: &mut Rng) -> Obs {
                     alive_at_q: false,
                     frames_at_q: 0,
                     idle_ms_before_attach: None,
+                    ever_stalled: false,
                 });
                 continue;
             };
@@ -438,6 +445,7 @@ pub fn run_case(cfg: &Config, script: &[Step], rng: &mut Rng) -> Obs {
                 alive_at_q,
                 frames_at_q,
                 idle_ms_before_attach: l.idle_ms_before_attach,
+                ever_stalled: l.ever_stalled,
             });
         }
         let lane = {
